@@ -84,8 +84,10 @@ CONTROLS = [
     ('x10-expansion-defines-wildcard', 'X10', 'syn', 'expansion-defines-not-adopted', [(PPF,
         '                if let Some((text, origin, new_defines)) = resolve_text_macro_usage(', '                if let Some((text, origin, _)) = resolve_text_macro_usage(', 1),
         (PPF, '                    ret.push(&text, origin);\n                    defines = new_defines;', '                    ret.push(&text, origin);', 1)]),
-    ('x21-quotes-before-blanks', 'X21', 'syn', 'include-name:TextMacroUsage:name-not-bare', [(PPF,
-        "let p = p.trim().trim_matches('\"');", "let p = p.trim_matches('\"').trim();", 1)]),
+    ('x21-blanks-not-removed', 'X21', 'syn', 'include-name:TextMacroUsage:name-not-bare', [(PPF,
+        "                            let p = p.trim();\n", "                            let p = p.as_str();\n", 1)]),
+    ('x21-angle-not-removed', 'X21', 'syn', 'include-name:TextMacroUsage:name-not-bare:angle', [(PPF,
+        "                                p.trim_start_matches('<').trim_end_matches('>')\n", "                                p.trim_matches('\"')\n", 1)]),
     ('w2-flag-widens-ignore-include', 'W2', 'syn', 'parse_sv_str:mode-flag-misused', [(API,
         '        pre_defines,\n        include_paths,\n        ignore_include,\n        false, // strip_comments\n        0, // resolve_depth',
         '        pre_defines,\n        include_paths,\n        ignore_include || allow_incomplete,\n        false, // strip_comments\n        0, // resolve_depth', 1)]),
